@@ -14,7 +14,8 @@ PROP = {
         "Sonic.Props.C04.C04_once_not_rearmed",
         "Sonic.Props.C04.C04_cancel_inside_own_callback_stops",
         "Sonic.Props.C04.C04_cancel_marks_running_repeat",
-        "Sonic.Props.C04.C04_oneshot_fire_keeps_cancel_mark",
+        "Sonic.Props.C04.C04_fire_keeps_cancel_count",
+        "Sonic.Props.C04.C04_repeating_continues",
         "Sonic.Props.C04.C04_closed_inside_own_callback_stops",
         "Sonic.Model.Loop.step_timer",
     ],
